@@ -239,6 +239,29 @@ def link_sly_confinement(ctx):
             out.append(Obl("frame:sly/%s" % fname, "pyab_experiment.sly", "frame", "vendored engine source readable", status=UNDECIDED, backend="effect-scan", detail=str(e), props=("C17", "C01")))
             continue
         modnames = _module_level_names(tree)
+        # every method of the classes whose instances live at run time (whatever it is called, dunder methods included), plus
+        # the historical list: a build step moved into __init__ / __call__ is run-time code
+        runtime_classes = {"lex.py": ("Lexer", "Token"), "yacc.py": ("Parser", "YaccProduction", "YaccSymbol")}[fname]
+        quals = list(quals)
+        for n in tree.body:
+            if isinstance(n, ast.ClassDef) and n.name in runtime_classes:
+                for m in n.body:
+                    if not isinstance(m, ast.FunctionDef):
+                        continue
+                    is_cm = any(ast.unparse(d) == "classmethod" for d in m.decorator_list) or (m.args.args and m.args.args[0].arg in ("cls", "meta", "mcs"))
+                    if isinstance(m, ast.FunctionDef) and "%s.%s" % (n.name, m.name) not in quals and not is_cm and m.name not in ("__init_subclass__",):
+                        quals.append("%s.%s" % (n.name, m.name))
+        # instance creation of lexers / parsers is plain allocation: no metaclass __call__, no __new__ handing out shared objects
+        shared = []
+        for n in tree.body:
+            if isinstance(n, ast.ClassDef):
+                for m in n.body:
+                    if isinstance(m, ast.FunctionDef) and ((m.name == "__call__" and n.name.endswith("Meta")) or (m.name == "__new__" and n.name in runtime_classes)):
+                        shared.append("line %d: %s.%s" % (m.lineno, n.name, m.name))
+        out.append(Obl("frame:sly/%s.instance-creation-is-plain-allocation" % fname, "pyab_experiment.sly.%s" % fname[:-3], "frame",
+                       "calling a lexer / parser class allocates a NEW object: the metaclass defines no __call__ and the run-time classes no __new__",
+                       status=DISCHARGED if not shared else REFUTED, backend="effect-scan", detail="; ".join(shared), props=PIPE_PROPS + ("C03", "C10", "C12", "C15"),
+                       model={"hooks": shared} if shared else None, replay=lambda ob: _thread_replay()))
         for q in quals:
             fn = _find(tree, q)
             if fn is None or not isinstance(fn, ast.FunctionDef):
@@ -274,19 +297,21 @@ def link_sly_confinement(ctx):
                        replay=lambda ob: _thread_replay()))
     # nothing on the compile+evaluate path changes a PROCESS-GLOBAL interpreter setting (a save/restore pair is not atomic:
     # another thread can restore a stale value or run under the temporary one)
-    for mod in ("pyab_experiment/utils/wraper_functions.py", "pyab_experiment/experiment_evaluator.py", "pyab_experiment/binning/binning.py",
-                "pyab_experiment/codegen/python/python_generator.py", "pyab_experiment/language/grammar.py", "pyab_experiment/language/lexer.py",
-                "pyab_experiment/language/data_structures.py", "pyab_experiment/utils/custom_operators.py", "pyab_experiment/utils/stats.py",
-                "pyab_experiment/codegen/python/custom_exceptions.py"):
+    allfiles = []
+    for root, _dirs, files in os.walk(os.path.join(SRC, "pyab_experiment")):
+        for fn_ in sorted(files):
+            if fn_.endswith(".py"):
+                allfiles.append(os.path.relpath(os.path.join(root, fn_), SRC))
+    for mod in sorted(allfiles):       # every first-party file, package __init__ files and the vendored engine included (import-time code runs too)
         path = os.path.join(SRC, mod)
         if not os.path.exists(path):
             continue
         with open(path) as f:
             tree = ast.parse(f.read())
         bad = process_global_mutations(tree)
-        out.append(Obl("frame:%s.no-process-global-settings-changed" % mod.split("/")[-1], mod.replace("/", ".")[:-3], "frame",
+        out.append(Obl("frame:%s.no-process-global-settings-changed" % mod[len("pyab_experiment/"):], mod.replace("/", ".")[:-3], "frame",
                        "no call changes a process-wide interpreter setting (sys.set*, os.environ / chdir / umask, locale, random.seed, gc, warnings filters, signal, decimal context, sys.path / sys.modules)",
-                       status=DISCHARGED if not bad else REFUTED, backend="effect-scan", detail="; ".join(bad), props=("C17", "C01"), model={"calls": bad} if bad else None,
+                       status=DISCHARGED if not bad else REFUTED, backend="effect-scan", detail="; ".join(bad), props=("C17", "C01", "C15", "C07", "C12", "C11"), model={"calls": bad} if bad else None,
                        replay=lambda ob: _thread_replay()))
     return out
 
